@@ -43,7 +43,7 @@
 EXTENDS Naturals, Sequences, FiniteSets, FiniteSetsExt, TLC, Json, IOUtils
 
 CONSTANTS
-  World,          \* "plain" | "split" | "broken": table of file contents (below)
+  World,          \* "plain" | "split" | "broken" | "dup": table of file contents (below)
   Codecs,         \* set of codec names, e.g. {"ber", "uper"}
   NumEnums,       \* subset of {"F", "T"}
   Adbcs,          \* subset of 0..2: any_defined_by_choices variant, 0 = None
@@ -74,7 +74,9 @@ Mutants == {"MutKeyOmitsCodec", "MutKeyFirstFileOnly", "MutSwallowDamage"}
 (*   broken: as plain, version 2 of file a does not parse                  *)
 
 Content ==
-  IF World = "split"
+  IF World = "dup"       \* both files define the same module (chunk 1 / chunk 2): the order of the file list decides which one holds
+  THEN [a |-> << <<1>>, <<1>> >>, b |-> << <<2>>, <<2>> >>]
+  ELSE IF World = "split"
   THEN [a |-> << <<1>>, <<1, 2>> >>, b |-> << <<2, 3>>, <<3>> >>]
   ELSE IF World = "broken"
   THEN [a |-> << <<1>>, <<9>> >>, b |-> << <<3>>, <<4>> >>]
